@@ -162,12 +162,9 @@ impl ExtensionStore {
         let compound_targets = targets
             .components
             .into_iter()
-            .map(|complex| {
-                if complex.components.len() == 1 {
-                    Ok(complex.components.first().unwrap().as_compound().clone())
-                } else {
-                    Err((format!("Can't extend complex selector {}.", complex), span).into())
-                }
+            .map(|complex| match complex.components.as_slice() {
+                [ComplexSelectorComponent::Compound(compound)] => Ok(compound.clone()),
+                _ => Err((format!("Can't extend complex selector {}.", complex), span).into()),
             })
             .collect::<SassResult<Vec<CompoundSelector>>>()?;
 
